@@ -32,6 +32,10 @@ def _counting_check(self, *args):
 _z3.Solver.check = _counting_check
 
 
+NO_TREE = {"n": "", "nt": False, "open": False, "c": [], "id": -1, "ch": []}
+TRUE_FORMULA = None
+
+
 class Clock:
     """stands in for the `time` module inside isla.solver"""
 
@@ -52,6 +56,23 @@ class Recorder:
         self.pops = 0
         self.probe = 0
         self.ticks = {(t["at"], t["n"]): t["by"] for t in case.get("ticks", [])}   # ("pop"|"probe"|"call", n) -> seconds
+        self.data = bool(case.get("data"))      # also record the data of every step (spec/SolverData.tla)
+        self.data_events = []
+
+    def snapshot(self, solver):
+        """the queue as [state id, dense rank of its cost] (costs are floats: only their order is kept)"""
+        costs = sorted({c for c, _ in solver.queue})
+        return [{"s": self.sid_of(st), "r": costs.index(c)} for c, st in solver.queue]
+
+    def data_event(self, ev, f, **kw):
+        if not self.data:
+            return
+        e = dict({"ev": ev, "kind": "", "sid": 0, "tree": NO_TREE, "ctrue": False, "q": self.snapshot(f["solver"])}, **kw)
+        st = f.get("state")
+        if st is not None and ev != "ProbeBegin":
+            e["tree"] = pj.tree_to_json(st.tree)
+            e["ctrue"] = st.constraint == TRUE_FORMULA
+        self.data_events.append(e)
 
     def tick(self, kind, n):
         by = self.ticks.get((kind, n))
@@ -72,6 +93,7 @@ class Recorder:
         if ev == "Pop":
             self.pops += 1
             self.events.append({"ev": "Pop", "sid": self.sid_of(f["state"]), "qlen": q, "blen": b})
+            self.data_event("Pop", f, sid=self.sid_of(f["state"]))
             self.tick("pop", self.pops)
         elif ev == "Admit":
             e = {"ev": "Admit", "kind": f["kind"], "qlen": q, "blen": b, "sid": 0, "tid": 0}
@@ -80,12 +102,15 @@ class Recorder:
             elif f["kind"] == "Solution":
                 e["tid"] = id(f["state"].tree) & 0x3FFFFFFF     # object identity: the admitted tree object is the one returned later
             self.events.append(e)
+            self.data_event("Admit", f, kind=f["kind"], sid=e["sid"])
         elif ev == "ProbeBegin":
             self.probe += 1
             self.events.append({"ev": "ProbeBegin", "sid": self.sid_of(f["state"], new=True), "qlen": q, "blen": b})
+            self.data_event("ProbeBegin", f, sid=self.sid_of(f["state"]))
             self.tick("probe", self.probe)
         elif ev == "ProbeEnd":
             self.events.append({"ev": "ProbeEnd", "qlen": q, "blen": b})
+            self.data_event("ProbeEnd", f)
 
 
 def make_solver(case, g):
@@ -102,7 +127,10 @@ def make_solver(case, g):
 
 
 def run_case(case):
-    global EXIT_AFTER
+    global EXIT_AFTER, TRUE_FORMULA
+    if TRUE_FORMULA is None:
+        import isla.isla_shortcuts as sc
+        TRUE_FORMULA = sc.true()
     random.seed(case.get("seed", 0))
     Z3_UNKNOWNS[0] = 0
     g = pj.json_to_grammar(case["g"])
@@ -126,6 +154,9 @@ def run_case(case):
     for _, st in solver.queue:
         rec.sid_of(st, new=True)
     out["init"] = len(solver.queue)
+    if rec.data:
+        out["data"] = {"id": case["id"], "g": case["g"], "start": out["start"], "unique": bool(solver.enforce_unique_trees_in_queue),
+                       "q0": rec.snapshot(solver), "tree0": pj.tree_to_json(solver.initial_tree), "events": rec.data_events}
     ncalls = case.get("calls", 6)
     depth = [0]
     for i in range(1, ncalls + 1):
